@@ -68,9 +68,11 @@ class BeakerCacheImpl(CacheImpl):
         cache, kw = self._get_cache(**kw)
         return cache.get(key, createfunc=creation_function, **kw)
 
-    def put(self, key, value, **kw):
+    def set(self, key, value, **kw):
         cache, kw = self._get_cache(**kw)
         cache.put(key, value, **kw)
+
+    put = set
 
     def get(self, key, **kw):
         cache, kw = self._get_cache(**kw)
